@@ -33,17 +33,20 @@ type runConfig struct {
 	curJob                *job
 	verbose               bool
 	noIfConv              bool
+	fallbackSolver        string
+	fallbackTimeoutMs     int
 }
 
 func defaultConfig(tier string) *runConfig {
 	c := &runConfig{
 		tier: tier, workers: min(16, runtime.NumCPU()), solverKind: "z3",
-		queryTimeoutMs: 10000, unwind: 200, maxInstrs: 20_000_000, maxDepth: 400,
+		queryTimeoutMs: 400, fallbackSolver: "cvc5", fallbackTimeoutMs: 30000, unwind: 200, maxInstrs: 20_000_000, maxDepth: 400,
 		maxDecisions: 20000, maxValues: 300, maxAlloc: 1 << 22, maxViolationsPerLabel: 3,
 		maxPaths: 400000, harnessBudget: 150 * time.Second,
 	}
 	if tier == "thorough" {
-		c.queryTimeoutMs = 60000
+		c.queryTimeoutMs = 2000
+		c.fallbackTimeoutMs = 120000
 		c.harnessBudget = 20 * time.Minute
 		c.maxPaths = 5_000_000
 	}
@@ -61,6 +64,8 @@ func newWorker(id int, prog *ssa.Program, cfg *runConfig) (*worker, error) {
 	if err != nil {
 		return nil, err
 	}
+	s.fallback = cfg.fallbackSolver
+	s.fallbackMs = cfg.fallbackTimeoutMs
 	in.solver = s
 	return &worker{id: id, in: in}, nil
 }
